@@ -91,14 +91,19 @@ for g in GROUPS:
             X, Y = group_elem(env, g, 'X'), group_elem(env, g, 'Y')
             p = env.vec('p', 3); p4 = env.vec('h', 4)
             M4 = S.group_matrix4(T, g, X)
+            X0, Y0, p0, h0 = X.clone(), Y.clone(), p.clone(), p4.clone()
             act3, act4, mul = _fn(op, g, 'Act').forward, _fn(op, g, 'Act4').forward, _fn(op, g, 'Mul').forward
             one = p[0:1] * 0 + 1
             env.eq('act3_is_matrix_times_point', act3(X, p), (M4 @ T.cat([p, one], -1))[0:3])
+            env.eq('act3_leaves_its_operands', T.cat([X, p], -1), T.cat([X0, p0], -1))
             env.eq('act4_is_matrix_times_homogeneous', act4(X, p4), M4 @ p4)
+            # frame: the action reads its operands only (an element acts on many points; w != 1 here)
+            env.eq('act4_leaves_its_operands', T.cat([X, p4], -1), T.cat([X0, h0], -1))
             d = T.cat([p, one * 0], -1)
             env.eq('act4_direction_w0', act4(X, d), M4 @ d)
             env.eq('act_of_product', act3(mul(X, Y), p), act3(X, act3(Y, p)))
             env.eq('act4_of_product', act4(mul(X, Y), p4), act4(X, act4(Y, p4)))
+            env.eq('products_and_actions_leave_their_operands', T.cat([X, Y, p, p4], -1), T.cat([X0, Y0, p0, h0], -1))
 
         @obligation(f'C03.{g}.invariant', functions=F)
         def invariant(env):
